@@ -113,7 +113,9 @@ def run(ctx):
         oracle('derived', math.isfinite(v) and all(math.isfinite(x) for x in fs), 'derived-strength-not-finite-at-target' if at else 'derived-not-finite', info)
         if math.isfinite(v):
             oracle('derived', v >= 0, 'duccio-negative', info)
-            oracle('derived', math.isfinite(v2) and v2 >= v * (1 - 1e-6), 'duccio-not-growing-with-excess', dict(info, impl_grown=v2))
+            above = any(m[1] > m[2] for m in ms)
+            oracle('derived', math.isfinite(v2) and (v2 > v * (1 + 1e-6) if above else v2 >= v), 'duccio-not-growing-with-excess', dict(info, impl_grown=v2, note='second call on the same regularizer with every cost raised by 3'))
+            oracle('derived', [float(x) for x in d.final_strengths] == fs, 'final-strengths-change-between-calls', dict(info, strengths_after_second_call=[float(x) for x in d.final_strengths]))
     # ---- (d) default arguments and BaseRegularizer
     basecases = []
     for i in range(40):
@@ -156,6 +158,9 @@ def run(ctx):
     ctx.exhaustive = True
     ctx.extra['exhaustive_part'] = 'all 1325 (epoch, n_epochs) pairs with 0<=epoch<=n_epochs<=50; metric values are sampled'
 
+    for key, kind, info in fails:
+        ctx.violation(key, {'kind': kind, 'case': info}, '%s on the implementation: %s' % (key, info))
+
     # ---- model evaluation in Coq
     mism = []
     model_ok = built
@@ -192,13 +197,25 @@ def run(ctx):
                     iv = dcase['strengths'][j]
                     if not (math.isfinite(iv) and close(iv, mv)):
                         mism.append(('derived-strength', dcase, float(mv)))
+            # second call (grown costs) with the strengths the model derives for the first call
+            k = 0
+            ex2 = []
+            for dcase in derived:
+                st_m = []
+                for m in dcase['ms']:
+                    st_m.append((Fraction(*dvals[k]), m[1] + 3, m[2]))
+                    k += 1
+                ex2.append('run_duccio %s %s %s' % (coq(st_m), coq(dcase['e']), coq(dcase['n'])))
+            v2s = ctx.coq_eval_sharded('derive2', ['Plinio.Model.Duccio'], '', ex2, shard=500)
+            for dcase, (num, den) in zip(derived, v2s):
+                ctx.corr += 1
+                if not close(dcase['impl_grown'], Fraction(num, den), rel=2.0 ** -17):
+                    mism.append(('second-call-value', dcase, float(Fraction(num, den))))
         except RuntimeError as ex:
             model_ok = False
             ctx.notes.append('model evaluation failed: ' + str(ex)[-800:])
 
     # ---- report
-    for key, kind, info in fails:
-        ctx.violation(key, {'kind': kind, 'case': info}, '%s on the implementation: %s' % (key, info))
     if not ctx.violations and not ctx.known_printed:
         if not built:
             ctx.violation('proof-broken', {'theorems': [o[0] for o in ctx.obligations if not o[1]], 'log': getattr(ctx, 'broken_log', '')[-3000:]}, 'Props/C19.v no longer checks', no_input=True)
